@@ -128,6 +128,9 @@ Print Assumptions C12_comments_kept_toplevel.
       environment, rendered through a POSITIONAL replacement template with exactly
       one [%s] per argument slot ([macro_tmpl_pos]: \url \underline \frac \hint ...;
       [env_tmpl_pos]: center, flushleft, flushright),
+    - the argument with index [i] of a macro / specials rendered through a KEYED
+      template that mentions [%(i+1)s] and only uses keys within the available
+      slots ([macro_tmpl_key]: \footnote \sqrt \textcolor ...),
     - and, with [thru_math = true], items of the body of a math node or of an
       equation-like environment in the modes that render formula bodies
       ('text', 'with-delimiters'); this needs [solid ('%' ++ c)]: the comment text
@@ -137,10 +140,11 @@ Print Assumptions C12_comments_kept_toplevel.
     PARTIAL.  Full statement (not proved):
       [o_keep_comments o = true -> forall comment node of text c that is rendered
        at all, infix ('%' ++ c) (fst (node_text ... n))].
-    Positions NOT covered: arguments substituted into a replacement template by
-    KEY ([%(n)s]: \footnote, \sqrt, \textcolor ...), arguments handed to a
-    replacement callable (\section, \href, \item[..], accents, math alphabets
-    ...), matrix cells. *)
+    Positions NOT covered: arguments handed to a replacement callable (\section,
+    \href, \item[..], accents, math alphabets ... — several of these strip,
+    re-case or re-style the text, so the infix statement is false for them),
+    matrix cells, [%(body)s] of an environment template (none in the default
+    database). *)
 Theorem C12_comments_kept_covered_partial : forall src lt cx o thru_math c n,
   o_keep_comments o = true ->
   (thru_math = true -> solid (37%N :: c) = true) ->
@@ -340,6 +344,24 @@ Section Examples.
     apply (C12_comments_kept_covered_partial src0 lt cx (o_of MMText true) false); [reflexivity | discriminate |].
     eapply cov_env_tmpl; [vm_compute; reflexivity | right; left; reflexivity |].
     apply cov_leaf. now exists 15, 19, m0, [10%N].
+  Qed.
+
+  Let footnote : str := [102;111;111;116;110;111;116;101]%N.
+  Let doc4 : node :=
+    NMacro 0 30 m0 footnote []
+      (Some ([[91%N]; [123%N]],
+             [None; Some (NGroup 9 20 m0 [123%N] [125%N]
+                            (Some (NList (Some 10) (Some 19)
+                               [Some (NChars 10 11 m0 [97%N]); Some (NComment 11 15 m0 mcom [10%N])])))])).
+  Example C12_comments_kept_keyed_template_nonvacuous :
+    macro_tmpl_key lt cx footnote 2 1 = true
+    /\ infix (37%N :: mcom) (fst (node_text src0 lt cx (o_of MMText true) sls_bos d0 doc4)).
+  Proof.
+    split; [vm_compute; reflexivity|].
+    apply (C12_comments_kept_covered_partial src0 lt cx (o_of MMText true) false); [reflexivity | discriminate |].
+    eapply (cov_macro_key lt cx _ false _ _ _ _ _ _ _ _ 1); [vm_compute; reflexivity | reflexivity |].
+    eapply cov_group; [right; left; reflexivity|].
+    apply cov_leaf. now exists 11, 15, m0, [10%N].
   Qed.
 
   Example C12_comments_kept_nonvacuous :
